@@ -25,6 +25,11 @@ assumptions = [
     "libc: strtoumax/strtoimax grammar, isspace/isgraph in the C locale, strdup/realloc never fail",
     "a point given as one number repeats it for y (mpt_fpoint_set: second element MissingData = single value, "
     "ed1bd33/b88fb5d of the C19 worker)",
+    "the S column (which property a name stands for, what kind of value it holds, its limits) comes from the hand-written "
+    "table Record.docs in MptModel/Spec/Record.lean, not from the generated setter chain; the meaning of a numeral, colour "
+    "or point TEXT is the model's converter in S as well (shared, no independent statement)",
+    "the type-directed assignment mpt_<kind>_set(obj, NULL, src) (name = NULL) and mpt_<kind>_get on a NULL object are not "
+    "driven; the result code of mpt_<kind>_get(obj, \"\") (memcmp with the defaults over padding bytes) is not compared",
 ]
 trusted = [
     "translate/layout_extract.py renders struct members, def_<kind> initialisers, elem[] tables, setter chains, "
